@@ -537,6 +537,21 @@ func genBroken() {
 		add(caseT{Family: "broken", What: what, Call: "deriveEqual", Names: []string{"deriveEqual", "deriveCompare", ".go", "PKGDIR", "package"}, UserBad: userbad}, files)
 	}
 	b("control: valid package", false, map[string]string{"u.go": goodUser})
+	// syntactically broken files that hold a call to rename, under the renaming flags (F61: refused with a message or
+	// rewritten with nothing lost; never a crash, never a derived.gen.go that does not parse)
+	for _, e := range []struct{ what, text string }{
+		{"bad expression", "\nfunc Broken1() int { return 1 + }\n"},
+		{"bad statement", "\nfunc Broken2() {\n\tif {\n\t}\n}\n"},
+		{"bad declaration", "\nfunc ( {\n"},
+		{"unterminated string", "\nvar s = \"never closed\n"},
+		{"illegal character", "\nvar q = 1 # 2\n"},
+	} {
+		for _, fl := range [][]string{{"-dedup"}, {"-autoname"}, {"-autoname", "-dedup"}} {
+			add(caseT{Family: "broken", What: "syntax error (" + e.what + ") next to a duplicate and a conflict, " + strings.Join(fl, " "), Call: "deriveEqual",
+				Names: []string{"deriveEqual", "u.go", "parse"}, UserBad: true, PreArgs: fl},
+				map[string]string{"u.go": goodUser + e.text + "\nfunc EqAgain(a, b *S) bool { return deriveEqualAgain(a, b) }\n\nfunc EqInts(a, b []int) bool { return deriveEqual(a, b) }\n"})
+		}
+	}
 	add(caseT{Family: "broken", What: "conflict without -autoname (one name, two argument types)", Call: "deriveEqual", Names: []string{"deriveEqual", "conflict"}, Unsupp: true},
 		map[string]string{"u.go": goodUser + "\nfunc EqInts(a, b []int) bool { return deriveEqual(a, b) }\n"})
 	add(caseT{Family: "broken", What: "duplicate without -dedup (two names, one argument type)", Call: "deriveEqual", Names: []string{"deriveEqual", "deriveEqualAgain", "ambig"}, Unsupp: true},
